@@ -151,4 +151,11 @@ func Run(try func(string, func() string)) {
 			try(fmt.Sprintf("netScript %d %d %v", n, k, ps), func() string { return fmt.Sprint(netScript(n, kind(k), ps)) })
 		}
 	}
+	for _, a := range [][]int{{}, {5, 1, 9}, {2, 2, -4, 7}} {
+		for _, b := range [][]int{{}, {9, 5, 1}, {3, -1, 8}} {
+			for _, lo := range []int{-1, 0, 1, 3, 4} {
+				try(fmt.Sprintf("rackScript %v %v %d", a, b, lo), func() string { return fmt.Sprint(rackScript(a, b, lo)) })
+			}
+		}
+	}
 }
